@@ -764,7 +764,7 @@ class VSerial:
             raise serial.SerialException("write failed")
         d = bytes(data)
         self.writes.append((S.now, d))
-        S.emit("write", data=d.hex())
+        S.emit("write", data=d.hex(), **({"port": self.idx} if getattr(self, "idx", 1) > 1 else {}))
         if self.device is not None:
             self.device.on_write(d)
         if self.write_fault_late is not None and self.nwrites == self.write_fault_late[0]:
@@ -781,7 +781,7 @@ class VSerial:
         if self.is_open:
             self.is_open = False
             self.closed_at = S.now
-            S.emit("port_close")
+            S.emit("port_close", **({"port": self.idx} if getattr(self, "idx", 1) > 1 else {}))
 
     def flush(self):
         pass
@@ -831,6 +831,7 @@ def run_scenario(scenario, seed=0, prefix=None, mode="random", preempt=0, preemp
         if open_hook is None:
             raise serial.SerialException(f"could not open port {url}")
         port = open_hook(url)
+        port.idx = len(run.ports) + 1
         run.ports.append(port)
         return port
 
